@@ -93,3 +93,112 @@ Theorem C19_doc_inert_refuted :
   (exists s g, doc_flags s [Z.of_nat g] = [true] /\ doc_flags (insert_at s g [10]) [Z.of_nat g + 1] = [false]).
 Proof. exact doc_inert_refuted. Qed.
 Print Assumptions C19_doc_inert_refuted.
+
+(* ---- (2') token boundaries, continued (Models/TriviaNum.v, Proofs/TriviaNumP.v).  This closes the two recognisers that
+   C19_tokens_boundary_partial leaves out and the composition through the ordered table for ONE token; what is still
+   not proved is the induction over the whole token sequence of the text in front of the gap
+   (C19_tokens_invariant_full stays a Definition). *)
+From FV Require Import Models.TriviaNum Proofs.TriviaNumP.
+
+(* Numbers (NumberPattern: optional minus, 0x/0o/0b with `_` groups, decimal with `_` groups, fraction, exponent):
+   a match that ends at the boundary of m is the same on m ++ r' for every r' that is empty or starts with a num_stop
+   byte: not a hex digit, `_`, `.`, x, X, o, O, `+`, `-`.  Whitespace and `/` are num_stop bytes. *)
+Theorem C19_number_boundary : forall m r r',
+  m_number (m ++ r) = length m -> num_follow r' -> m_number (m ++ r') = length m.
+Proof. exact m_number_boundary. Qed.
+Print Assumptions C19_number_boundary.
+
+Theorem C19_number_boundary_trivia :
+  (forall c, trivia_start c = true -> num_stop c = true) /\
+  (forall r, starts_trivia r = true -> num_follow r) /\
+  (forall m r c r', trivia_start c = true -> m_number (m ++ r) = length m -> m_number (m ++ c :: r') = length m).
+Proof. exact (conj trivia_start_num_stop (conj starts_trivia_num_follow m_number_boundary_trivia)). Qed.
+Print Assumptions C19_number_boundary_trivia.
+
+(* Every spelling, complete or with a malformed tail (0x, 1e, 1e+, 1_, 1.): the match on m followed by trivia does not
+   depend on the trivia, equals the match on m alone, and lies inside m. *)
+Theorem C19_number_trivia_indep : forall m r r', num_follow r -> num_follow r' ->
+  m_number (m ++ r) = m_number (m ++ r') /\ m_number (m ++ r) = m_number m /\ (m_number m <= length m)%nat.
+Proof. exact m_number_trivia_indep. Qed.
+Print Assumptions C19_number_trivia_indep.
+
+(* a recogniser that stays inside m (in particular: fails) on m ++ r does the same on m ++ r' *)
+Theorem C19_number_inside : forall m r r', (m_number (m ++ r) <= length m)%nat -> num_follow r' ->
+  m_number (m ++ r') = m_number (m ++ r).
+Proof. exact m_number_U. Qed.
+Print Assumptions C19_number_inside.
+
+Theorem C19_number_boundary_nonvacuous :
+  let tok := [48; 120; 49; 95; 102] in let bad := [49; 101] in
+  m_number (tok ++ [43; 49]) = length tok /\ num_follow [47; 42; 32; 42; 47] /\ num_follow [9] /\
+  m_number (tok ++ [47; 42; 32; 42; 47]) = 5%nat /\
+  m_number (bad ++ [32; 53]) = 1%nat /\ m_number (bad ++ [53]) = 3%nat.
+Proof. exact number_boundary_example. Qed.
+Print Assumptions C19_number_boundary_nonvacuous.
+
+(* Byte literals: unchanged for every following text that is empty or does not start with a quote; the restriction
+   is necessary (quote backslash quote is a complete literal, followed by a quote it is a longer one). *)
+Theorem C19_byte_boundary : forall m r r', m <> [] ->
+  m_byte (m ++ r) = length m -> byte_follow r' -> m_byte (m ++ r') = length m.
+Proof. exact m_byte_boundary. Qed.
+Print Assumptions C19_byte_boundary.
+
+Theorem C19_byte_boundary_trivia : forall m r c r', m <> [] -> trivia_start c = true ->
+  m_byte (m ++ r) = length m -> m_byte (m ++ c :: r') = length m.
+Proof. exact m_byte_boundary_trivia. Qed.
+Print Assumptions C19_byte_boundary_trivia.
+
+Theorem C19_byte_follow_necessary :
+  let m := [39; 92; 39] in
+  m_byte (m ++ [120]) = length m /\ m_byte (m ++ [39]) <> length m /\ m_byte (m ++ [32; 39]) = length m.
+Proof. exact byte_follow_necessary. Qed.
+Print Assumptions C19_byte_follow_necessary.
+
+(* Composition through the ordered table (step = first pattern of lexer.New's table that matches at offset 0): for a
+   significant token m of ANY kind (string, byte literal, number, identifier/keyword, operator/punctuation), if the
+   table yields m on m ++ r (any r), it yields the same class and length on m ++ r' whenever r' is empty, starts with
+   whitespace, or starts with `/` and m is not the operator `/` itself.  Comment tokens are excluded: a line comment
+   followed by a space is a longer line comment (trivia, not a significant token). *)
+Theorem C19_token_boundary_all_kinds : forall m r r' k,
+  m <> [] -> significant_cls k -> step (m ++ r) = (Tok k, length m) -> trivia_follows m r' ->
+  step (m ++ r') = (Tok k, length m).
+Proof. exact token_boundary_all_kinds. Qed.
+Print Assumptions C19_token_boundary_all_kinds.
+
+(* the same with the inserted text characterised as trivia: it starts with whitespace, `//` or `/` `*`;
+   directly after the operator `/` only whitespace *)
+Theorem C19_token_boundary_trivia : forall m r t k,
+  m <> [] -> significant_cls k -> step (m ++ r) = (Tok k, length m) -> starts_trivia t = true ->
+  (m <> [47] \/ is_ws (hd 0 t) = true) ->
+  step (m ++ t) = (Tok k, length m).
+Proof. exact token_boundary_trivia. Qed.
+Print Assumptions C19_token_boundary_trivia.
+
+(* Token sequence at one gap: whitespace t inserted between an ASCII token m and the rest post.  Both texts yield the
+   token m at P; the reformatted text continues with the tokens and bad-character diagnostics of post moved by the
+   shift of the gap, the original text with those of post unmoved. *)
+Theorem C19_ws_after_token_sequence : forall fuel P m post t k,
+  m <> [] -> significant_cls k -> ascii_bytes m -> step (m ++ post) = (Tok k, length m) ->
+  t <> [] -> all_ws t -> starts_non_ws post ->
+  let Q := advance P m in
+  lex_loop (S (S fuel)) P (m ++ t ++ post) =
+    mktok k P Q m :: map (gap_shift_tok Q (advance Q t)) (lex_loop fuel Q post) /\
+  lex_loop (S fuel) P (m ++ post) = mktok k P Q m :: lex_loop fuel Q post /\
+  bad_loop (S (S fuel)) P (m ++ t ++ post) = map (gap_shift Q (advance Q t)) (bad_loop fuel Q post) /\
+  bad_loop (S fuel) P (m ++ post) = bad_loop fuel Q post.
+Proof. exact ws_after_token_sequence. Qed.
+Print Assumptions C19_ws_after_token_sequence.
+
+Theorem C19_all_kinds_nonvacuous :
+  step ([34; 97; 34] ++ [59]) = (Tok K_STRING, 3%nat) /\
+  step ([39; 92; 110; 39] ++ [59]) = (Tok K_BYTE, 4%nat) /\
+  step ([49; 46; 53; 101; 45; 51] ++ [43; 49]) = (Tok K_NUMBER, 6%nat) /\
+  step ([120; 49] ++ [40]) = (Tok K_IDENT, 2%nat) /\
+  step ([60; 61] ++ [45; 49]) = (Tok K_OP, 2%nat) /\
+  step ([47] ++ [49]) = (Tok K_OP, 1%nat) /\
+  trivia_follows [49; 46; 53; 101; 45; 51] [47; 42; 42; 47; 43; 49] /\
+  step ([49; 46; 53; 101; 45; 51] ++ [47; 42; 42; 47; 43; 49]) = (Tok K_NUMBER, 6%nat) /\
+  ~ trivia_follows [47] [47; 42; 42; 47; 49] /\
+  step ([47] ++ [47; 42; 42; 47; 49]) = (Tok K_COMMENT, 6%nat).
+Proof. exact all_kinds_example. Qed.
+Print Assumptions C19_all_kinds_nonvacuous.
